@@ -376,15 +376,15 @@ Fixpoint res_loop (no_shadow : bool) (fuel : nat) (l : list (list Z)) (h : hint)
   match fuel with
   | O => Fuel
   | S fuel =>
-      let next_outer :=
+      let next_outer (_ : unit) :=      (* a thunk: extraction to OCaml is strict *)
         match nth_error l (S i) with
         | None => Ok (false, l, h)
         | Some c => res_loop no_shadow fuel l h (S i) c O
         end in
       match nth_error l j with
-      | None => next_outer
+      | None => next_outer Datatypes.tt
       | Some cl2 =>
-          if clause_eqb cl2 cl1 then next_outer else
+          if clause_eqb cl2 cl1 then next_outer Datatypes.tt else
           match resolvable cl1 cl2 with
           | None => res_loop no_shadow fuel l h i cl1 (S j)
           | Some (r, rs) =>
